@@ -653,3 +653,33 @@ impl<K: Hash + Eq, V, FH: BuildHasher, RH: BuildHasher> Cache<K, V>
         self.protected.is_empty() && self.probationary.is_empty()
     }
 }
+
+// ---------------------------------------------------------------------------------------------
+// verification hooks (feature `verif-hooks`): read-only views and state assembly.
+#[cfg(feature = "verif-hooks")]
+#[doc(hidden)]
+impl<K: Hash + Eq, V, FH: BuildHasher, RH: BuildHasher> SegmentedCache<K, V, FH, RH> {
+    /// (probationary, protected)
+    #[allow(clippy::type_complexity)]
+    pub fn verif_parts(
+        &self,
+    ) -> (
+        &RawLRU<K, V, DefaultEvictCallback, RH>,
+        &RawLRU<K, V, DefaultEvictCallback, FH>,
+    ) {
+        (&self.probationary, &self.protected)
+    }
+
+    /// Assembles a cache from two already built segments (sizes = the segments' capacities).
+    pub fn verif_from_parts(
+        probationary: RawLRU<K, V, DefaultEvictCallback, RH>,
+        protected: RawLRU<K, V, DefaultEvictCallback, FH>,
+    ) -> Self {
+        Self {
+            probationary_size: probationary.cap(),
+            probationary,
+            protected_size: protected.cap(),
+            protected,
+        }
+    }
+}
